@@ -109,6 +109,10 @@ def mypy_expression_to_sds_type(expr: mp_nodes.Expression) -> sds_types.Abstract
         return sds_types.NamedType(name="float", qname="builtins.float")
     elif isinstance(expr, mp_nodes.StrExpr):
         return sds_types.NamedType(name="str", qname="builtins.str")
+    elif isinstance(expr, mp_nodes.BytesExpr):
+        return sds_types.NamedType(name="bytes", qname="builtins.bytes")
+    elif isinstance(expr, mp_nodes.ComplexExpr):
+        return sds_types.NamedType(name="complex", qname="builtins.complex")
     elif isinstance(expr, mp_nodes.TupleExpr):
         return sds_types.TupleType(types=[mypy_expression_to_sds_type(item) for item in expr.items])
     elif isinstance(expr, mp_nodes.UnaryExpr):
